@@ -175,8 +175,14 @@ def _build_resume(gid, p):
                 c3["path"] = path
             if p.get("every_resume"):
                 c3["every"] = p["every_resume"]      # the resumed run may ask for another cadence
+            role3 = "resumed"
+            if p.get("min_step_resume") is not None:
+                # the resuming call states another minimum step: its own steps obey it (the continuation
+                # is then not comparable with the reference run)
+                c3["min_step"] = p["min_step_resume"]; c3["max_n_steps"] = None
+                role3 = "resumed_changed"
             if not p.get("fault_k2"):
-                res = smcdrv.run_smc(c3, ids=ids, role="resumed", resume_from=source(crashed))
+                res = smcdrv.run_smc(c3, ids=ids, role=role3, resume_from=source(crashed))
                 res["restore_state"] = pickle.loads(blob)   # projection of the payload as it was written
                 runs.append(res)
             else:
@@ -417,7 +423,7 @@ def corpus_schedule(tier, seed, rnd):
     targets = [0.5, 0.1, 0.9, (0.2, 0.8)]
     # adaptive
     combos = []
-    for ms in (None, 0.05, 0.3, 1.0):
+    for ms in (None, 0, 0.0, 0.05, 0.3, 1.0):       # 0 and 0.0: "no minimum step", stated explicitly
         for mx in (None, 1, 2, 5):
             for tg in targets:
                 combos.append(dict(adaptive=True, min_step=ms, max_n_steps=mx, target=tg))
@@ -611,6 +617,27 @@ def corpus_resume(tier, seed, rnd):
             specs.append(_mk(k, "resume", p))
             k += 1
     return specs
+
+
+def corpus_resume_schedule(tier, seed, rnd):
+    """C06: a run interrupted and resumed with *other* schedule options (a minimum step stated by the
+    resuming call): the steps the resumed call takes obey the options of that call."""
+    import smcdrv
+    specs = []
+    n_cfg = 8 if tier == "quick" else 80
+    k = 0
+    for i in range(n_cfg):
+        c = dict(N=rnd.choice([8, 16]), width=rnd.choice([0.02, 0.05, 0.1]), seed=seed * 91 + i, every=1, mcmc_steps=1,
+                 sampler="minipcn_smc", rng_route=rnd.choice(["sample", "init"]), precond="none",
+                 min_step=rnd.choice([None, None, 0.0, 0.01]))
+        ref = smcdrv.run_smc(dict(c))
+        nlike = ref["tracer"].k
+        if nlike < 4:
+            continue
+        for fk in sorted(rnd.sample(range(3, nlike + 1), min(3 if tier == "quick" else 8, nlike - 2))):
+            specs.append(_mk(k, "resume", {"cfg": c, "fault_k": fk, "route": rnd.choice(["bytes", "dict", "path"]),
+                                           "min_step_resume": rnd.choice([0.2, 0.35, 0.5])})); k += 1
+    return [dict(x, id="m" + x["id"]) for x in specs]
 
 
 def corpus_file(tier, seed, rnd):
@@ -1150,7 +1177,7 @@ def rule_default(g, r, fin):
 
 
 CHECKS = {
-    "C06": dict(corpus=lambda t, s, r: corpus_schedule(t, s, r) + corpus_rerun(t, s, r), e1=[e1_tempering], extra=apalache_inductive),
+    "C06": dict(corpus=lambda t, s, r: corpus_schedule(t, s, r) + corpus_rerun(t, s, r) + corpus_resume_schedule(t, s, r), e1=[e1_tempering], extra=apalache_inductive),
     "C07": dict(corpus=lambda t, s, r: corpus_schedule(t, s, r) + corpus_rerun(t, s, r), e1=[e1_tempering]),
     "C08": dict(corpus=lambda t, s, r: corpus_general(t, s, r, 200 if t == "quick" else 3000)
                 + [dict(x, id="v" + x["id"]) for x in corpus_variants(t, s, r)]
